@@ -48,6 +48,7 @@ type ctok = Cmd of cmd | ErrThenConnect of int | ErrThenRevoke of int | Burst of
 let parse_cmd (t : string) : ctok =
   if t = "c" || t = "C" then Cmd KConnect      (* C: the first request is an upload head without body; same transitions *)
   else if t = "r" then Cmd KRevoke
+  else if t = "L" then Cmd (KErrors O)          (* a stalled global logger is installed: no transition *)
   else match strip_prefix "e" t with Some k -> Cmd (KEnd (nat (num_of k))) | None ->
   match strip_prefix "b" t with
   | Some r -> (match String.split_on_char ':' r with
